@@ -30,11 +30,18 @@ func raceErrors() int { return 0 }
 
 func settle() { synctest.Wait() }
 
-func eventWait(s *Sim, horizon *time.Timer) (event, bool) {
+func eventWait(s *Sim, horizon, probe *time.Timer) (event, int) {
+	var probeC <-chan time.Time
+	if probe != nil {
+		probeC = probe.C
+	}
+
 	select {
 	case e := <-s.events:
-		return e, true
+		return e, waitEvent
 	case <-horizon.C:
-		return event{}, false
+		return event{}, waitHorizon
+	case <-probeC:
+		return event{}, waitProbe
 	}
 }
